@@ -358,7 +358,7 @@ fn replay_crowd(ctx: &mut Ctx, id: &str, case: &Value) {
     let addr = case.get("addr").and_then(|x| x.as_u64()).unwrap_or(0) as u32;
     let n = case.get("n").and_then(|x| x.as_u64()).unwrap_or(1100) as usize;
     let lines: Vec<Vec<u8>> = case.get("lines").and_then(|s| s.as_array()).map(|a| a.iter().filter_map(|x| x.as_str().map(|s| s.as_bytes().to_vec())).collect()).unwrap_or_default();
-    let d = engine::sweep::crowd_difference(&cfg, addr, &lines, n);
+    let d = run::with_wedge_limit(180_000, || engine::sweep::crowd_difference(&cfg, addr, &lines, n));
     run::say(&format!("{} line(s) of {addr:06X}, cfg [{}], {}: {}", lines.len(), cfg.label(), if n == 0 { "with and without a final line feed".to_string() } else { format!("alone and behind {n} other aircraft") }, d.clone().unwrap_or_else(|| "same row".into())));
     if let Some(what) = d {
         ctx.violation(&format!("{id}/crowded-table"), &format!("{addr:06X}"), || what, || case.clone());
